@@ -64,7 +64,7 @@ impl Property for C19 {
         "C19"
     }
     fn rule(&self) -> String {
-        "case = 1..4 sources of all kinds (generated text, synthesised accounting records, shipped journal/evtx) x decoration tuple of C13 (-n/-p/-w, -u/-l/-z, -d, separators, colour) x optional window. oracle: (1) stdout with --summary == stdout without, stdout contains no summary text; (2) `Printed bytes` == len(stdout) (SGR sequences removed for --color always), `Printed syslines+evtx+fixedstruct+journal` == number of messages of the reference merge, `Printed lines` == lines of text messages; (3) per-file `Printed: bytes` sum == total - separators x messages - supplied final newlines; (4) `Datetime printed first/last` == min/max instant of the printed messages (second resolution) and `Datetime filter -a/-b` == the window bounds. non-trivial = >=2 sources printing and >=1 decoration and (a separator or a supplied final newline); distinct = hash(case).".into()
+        "case = 1..4 sources of all kinds (generated text, synthesised accounting records, shipped journal/evtx) x decoration tuple of C13 (-n/-p/-w, -u/-l/-z, -d, separators, colour) x optional window. oracle: (1) stdout with --summary == stdout without, stdout contains no summary text; (2) `Printed bytes` == len(stdout) (SGR sequences removed for --color always), `Printed syslines+evtx+fixedstruct+journal` == number of messages of the reference merge, `Printed lines` == lines of text messages; (3) per-file `Printed: bytes` sum == total - separators x messages - supplied final newlines, and for every text source its `Printed: syslines / lines / datetime first / datetime last` == count, lines and min/max instant of that file's printed messages (nothing when none was printed); (4) `Datetime printed first/last` == min/max instant of the printed messages (second resolution) and `Datetime filter -a/-b` == the window bounds. non-trivial = >=2 sources printing and >=1 decoration and (a separator or a supplied final newline); distinct = hash(case).".into()
     }
     fn assumptions(&self) -> Vec<String> {
         vec!["colour escape sequences are not counted in `Printed bytes` (weaker reading on purpose)".into()]
@@ -198,6 +198,38 @@ impl Property for C19 {
                 let p = &sec[pi..];
                 let end = p.find("  Processed:").unwrap_or(p.len());
                 per_file_sum += num(&p[..end], "      bytes").unwrap_or(0);
+            }
+        }
+        // per-file `Printed:` figures of text sources: message and line counts, first and last printed datetime
+        for (si, m) in mats.iter().enumerate() {
+            if !case.srcs[si].is_text() {
+                continue;
+            }
+            let pname = m.path.to_string_lossy().to_string();
+            let sec = match files_part.split("\nFile: ").skip(1).find(|sec| sec.lines().next().map(|l| l.trim_end() == pname).unwrap_or(false)) {
+                Some(s) => s,
+                None => continue,
+            };
+            let p = match sec.find("  Printed:") {
+                Some(pi) => {
+                    let p = &sec[pi..];
+                    &p[..p.find("  Processed:").unwrap_or(p.len())]
+                }
+                None => continue,
+            };
+            let mine: Vec<&Msg> = order.iter().filter(|(s2, _)| *s2 == si).map(|(s2, mi)| &msgs[*s2][*mi]).collect();
+            let want_lines: u64 = mine.iter().map(|x| x.bytes.split_inclusive(|&b| b == b'\n').count() as u64).sum();
+            let got_sys = num(p, "      syslines").unwrap_or(0);
+            let got_lines = num(p, "      lines").unwrap_or(0);
+            if got_sys != mine.len() as u64 || got_lines != want_lines {
+                return Outcome::fail("per-file-counts", format!("{} file {}: summary says {} syslines / {} lines printed, stdout has {} / {}", ctx(), pname, got_sys, got_lines, mine.len(), want_lines));
+            }
+            let f = field(p, "      datetime first").and_then(paren_utc);
+            let l = field(p, "      datetime last").and_then(paren_utc);
+            let wf = mine.iter().map(|x| x.t).min().map(|t| t.div_euclid(1_000_000_000));
+            let wl = mine.iter().map(|x| x.t).max().map(|t| t.div_euclid(1_000_000_000));
+            if f != wf || l != wl {
+                return Outcome::fail("per-file-first-last", format!("{} file {}: summary `Printed: datetime first/last` {:?}/{:?}, its printed messages span {:?}..{:?}", ctx(), pname, f, l, wf, wl));
             }
         }
         let want_sum = visible.len() as u64 - sep_len * nmsg - supplied_nl;
